@@ -244,7 +244,6 @@ func (s *stream) Open() {
 			s.config.RollbackMitigation.Disabled = true
 		} else {
 			s.rollbackMitigation = couchbase.NewRollbackMitigation(s.client, s.config, vbIDs, s.dispatchPersistSeqNo)
-			s.rollbackMitigation.Start()
 		}
 	}
 
@@ -266,6 +265,12 @@ func (s *stream) Open() {
 
 		return true
 	})
+
+	// The persisted seqNo of a vBucket is dispatched only when it changes: it must not be observed before the
+	// observers exist, otherwise the first (and on a quiet vBucket the only) dispatch is lost and its events wait forever.
+	if !s.config.RollbackMitigation.Disabled {
+		s.rollbackMitigation.Start()
+	}
 
 	s.openAllStreams(vbIDs)
 
